@@ -86,7 +86,7 @@ func checkC17(w *World, r *Report) {
 			if fn == nil {
 				fatalf("%s.%s has no body", mt.Obj().Name(), m)
 			}
-			checkForwarder(w, r, tm, fs, fn, m, "HK-DISPATCH", mt.Obj().Name(), true)
+			checkDispatcher(w, r, tm, fs, fn, m, "HK-DISPATCH", mt.Obj().Name())
 		}
 	}
 
@@ -202,6 +202,170 @@ func (f *forwardRule) OnInstr(x *Explorer, fr *Frame, in ssa.Instruction, st uin
 		}
 	}
 	return st
+}
+
+// dispatchRule explores a multi-listener method with every listener invocation answering `answer`; it counts the
+// invocations passed and notes when a loop that (in context) contains the invocation is left other than through its
+// header (the range being exhausted).
+type dispatchRule struct {
+	BaseRule
+	w      *World
+	answer AV
+	loops  map[string]bool // fr.id|header index of loops containing the invocation
+}
+
+const (
+	dsCountMask = 3
+	dsEarly     = 1 << 2
+)
+
+func (d *dispatchRule) CallResult(x *Explorer, fr *Frame, c ssa.CallInstruction) ([]AV, CallMode) {
+	if e := d.w.EffectOf(c); e != nil && e.Kind == EffHook {
+		n := c.Common().Signature().Results().Len()
+		vals := make([]AV, n)
+		if n > 0 {
+			vals[n-1] = d.answer
+		}
+		return vals, CallReplace
+	}
+	return nil, CallDefault
+}
+
+func (d *dispatchRule) OnInstr(x *Explorer, fr *Frame, in ssa.Instruction, st uint64) uint64 {
+	if e := d.w.EffectOf(in); e != nil && e.Kind == EffHook {
+		if st&dsCountMask < 2 {
+			st++
+		}
+	}
+	return st
+}
+
+func (d *dispatchRule) OnBlock(x *Explorer, fr *Frame, b, pred *ssa.BasicBlock, st uint64) uint64 {
+	if pred == nil {
+		return st
+	}
+	for l := fnInfo(fr.Fn).LoopOf[pred]; l != nil; l = l.Parent {
+		if !l.Blocks[b] && pred != l.Header && d.loops[fmt.Sprintf("%s|%d", baseFrameID(fr), l.Header.Index)] {
+			st |= dsEarly
+		}
+	}
+	return st
+}
+
+// baseFrameID: the frame id without path selections.
+func baseFrameID(fr *Frame) string {
+	if i := strings.Index(fr.id, "#"); i >= 0 {
+		return fr.id[:i]
+	}
+	return fr.id
+}
+
+// checkDispatcher checks one method of the multi-listener: whatever helpers and closures it is written with, it invokes
+// the same-named method on every element of the receiver with its own parameters, stops only at a listener's error and
+// returns that error.
+func checkDispatcher(w *World, r *Report, tm *Terms, fs *failSummary, fn *ssa.Function, m, rule, owner string) {
+	where := w.pos(fn.Pos())
+	key := owner + "." + m
+	root := tm.Root(fn)
+	type site struct {
+		fr *Frame
+		in ssa.CallInstruction
+	}
+	var invokes []site
+	tm.walkFrom(root, func(fr *Frame, in ssa.Instruction) {
+		if e := w.EffectOf(in); e != nil && e.Kind == EffHook {
+			invokes = append(invokes, site{fr, in.(ssa.CallInstruction)})
+		}
+	})
+	if len(invokes) != 1 {
+		r.Fail(rule, key+":invoke", where, fmt.Sprintf("%s.%s invokes exactly one listener method", owner, m),
+			fmt.Sprintf("found %d invocations of FundraisingHooks methods", len(invokes)))
+		return
+	}
+	inv, ifr := invokes[0].in, invokes[0].fr
+	cc := inv.Common()
+	r.Check(cc.Method.Name() == m, rule, key+":same-method", w.instrPos(inv),
+		fmt.Sprintf("%s.%s forwards to the same-named listener method", owner, m),
+		fmt.Sprintf("it invokes %s instead: listeners of %s are never told, listeners of %s are told twice", cc.Method.Name(), m, cc.Method.Name()))
+	// receiver: an element of the method's receiver slice
+	isRecv := func(t *Term) bool {
+		t = uncell(t)
+		return t.Op == "param" && len(fn.Params) > 0 && t.V == ssa.Value(fn.Params[0])
+	}
+	rt := uncell(tm.Of(ifr, cc.Value))
+	r.Check(rt.Op == "elem" && isRecv(rt.Args[0]), rule, key+":receiver", w.instrPos(inv), "the listener invoked is an element of the receiver slice",
+		"receiver of the invocation is "+rt.String())
+	// the loop that, in context, contains the invocation
+	var lfr *Frame
+	var loop *Loop
+	if l := fnInfo(inv.Parent()).LoopOf[inv.Block()]; l != nil {
+		lfr, loop = ifr, l
+	} else {
+		for f := ifr; f != nil && f != root && f.Parent != nil && f.Call != nil; f = f.Parent {
+			if l := fnInfo(f.Parent.Fn).LoopOf[f.Call.Block()]; l != nil {
+				lfr, loop = f.Parent, l
+				break
+			}
+		}
+	}
+	if loop == nil {
+		r.Fail(rule, key+":all-elements", w.instrPos(inv), "every registered listener is invoked (loop over the receiver)",
+			"the invocation is not inside a loop: at most one listener is called")
+	} else {
+		for loop.Parent != nil {
+			loop = loop.Parent
+		}
+		// left early only when a listener returned an error: with every listener answering nil, no path leaves the loop
+		// other than through its header, and the method returns nil
+		dr := &dispatchRule{w: w, answer: Nil, loops: map[string]bool{fmt.Sprintf("%s|%d", lfr.id, loop.Header.Index): true}}
+		var bad []string
+		reached := false
+		for _, o := range NewExplorer(w, tm, dr).Run(fn, 0) {
+			if o.St&dsCountMask > 0 {
+				reached = true
+			}
+			switch {
+			case o.Kind == ExitPanic:
+				bad = append(bad, "panic at "+w.instrPos(o.Instr))
+			case o.St&dsEarly != 0:
+				bad = append(bad, "the loop over the listeners is left before the range is exhausted on a path to "+w.instrPos(o.Instr)+" although no listener failed: later listeners are skipped")
+			default:
+				if av, ok := o.ErrAV(fn); ok && av.K != avNil {
+					bad = append(bad, fmt.Sprintf("exit %s can return a %s error although every listener succeeded", w.instrPos(o.Instr), av))
+				}
+			}
+		}
+		if !reached {
+			bad = append(bad, "no path invokes a listener")
+		}
+		sort.Strings(bad)
+		r.Check(len(bad) == 0, rule, key+":all-elements", w.instrPos(inv),
+			"with every listener succeeding the loop over the listeners runs to the end of the range and the method returns nil",
+			strings.Join(dedupe(bad), "; "))
+		// the loop ranges over the whole receiver: index from 0/-1, step 1, bound len(slice) with the slice being the receiver
+		lf := lfr.Fn
+		rangeOK := fullRange(lf, loop) && len(lf.Params) > 0 && (lf == fn || isRecv(tm.Of(lfr, lf.Params[0])))
+		r.Check(rangeOK, rule, key+":range", w.instrPos(inv), "the loop ranges over the whole receiver slice",
+			"the loop bound/step is not the plain range over the receiver")
+	}
+	// arguments: parameter i -> argument i, unchanged
+	params := fn.Params[1:]
+	okArgs, why := len(cc.Args) == len(params), ""
+	if !okArgs {
+		why = fmt.Sprintf("%d arguments for %d parameters", len(cc.Args), len(params))
+	}
+	for i := 0; okArgs && i < len(params); i++ {
+		at := uncell(tm.OperandAt(ifr, inv, cc.Args[i]))
+		if !(at.Op == "param" && at.V == ssa.Value(params[i])) {
+			okArgs = false
+			why = fmt.Sprintf("argument %d is %s, expected the method's own parameter %q", i, at.String(), params[i].Name())
+		}
+	}
+	r.Check(okArgs, rule, key+":args", w.instrPos(inv), "each parameter is forwarded unchanged, in order", why)
+	// error returned: when the invocation fails every exit of the method reached afterwards fails
+	if !errPropSite(w, r, tm, fs, fn, inv, rule) {
+		r.Fail(rule, key+":error", w.instrPos(inv), "the listener's error result is propagated", "the invoked method has no error result to propagate")
+	}
 }
 
 // checkForwarder checks one forwarding method (multi-listener or keeper wrapper).
@@ -470,12 +634,70 @@ func (w *World) loopMayDo(l *Loop, p func(ssa.Instruction) bool) bool {
 	return false
 }
 
+// operationOf: the operation a piece of code belongs to — the function itself, or, for an unexported helper / closure with
+// a single calling function, (transitively) that caller. A hook call or the write it announces may sit in a helper of the
+// operation; "once per operation" and "the record that is written" are about the operation.
+func operationOf(w *World, fn *ssa.Function) *ssa.Function {
+	for i := 0; i < 8; i++ {
+		if fn.Parent() != nil {
+			fn = fn.Parent()
+			continue
+		}
+		obj := funcObj(fn)
+		if obj == nil || obj.Exported() {
+			return fn
+		}
+		callers := map[*ssa.Function]bool{}
+		for _, cs := range w.callSitesOf(fn) {
+			if p := pkgOf(cs.Parent()); p != nil && w.isRepoPkg(p) && p.Path() != simPath {
+				callers[cs.Parent()] = true
+			}
+		}
+		if len(callers) != 1 {
+			return fn
+		}
+		for c := range callers {
+			fn = c
+		}
+	}
+	return fn
+}
+
+// loopInContext: in runs inside a loop of its function or of a caller on the frame chain (up to, not beyond, stop).
+func loopInContext(fr *Frame, in ssa.Instruction, stop *Frame) bool {
+	if fnInfo(in.Parent()).LoopOf[in.Block()] != nil {
+		return true
+	}
+	for f := fr; f != nil && f != stop && f.Parent != nil && f.Call != nil; f = f.Parent {
+		if fnInfo(f.Parent.Fn).LoopOf[f.Call.Block()] != nil {
+			return true
+		}
+	}
+	return false
+}
+
 func checkHookSite(w *World, r *Report, tm *Terms, m string, spec hookSpec, site ssa.CallInstruction, n int) {
-	fn := site.Parent()
+	fn := operationOf(w, site.Parent())
+	opFr := tm.Root(fn)
 	key := fmt.Sprintf("%s:site%d:%s", m, n, fnName(fn))
 	where := w.instrPos(site)
-	fi := fnInfo(fn)
-	r.Check(fi.LoopOf[site.Block()] == nil, "HK-SITE", key+":not-in-loop", where,
+	// the site in the calling context(s) of its operation
+	var siteFrs []*Frame
+	tm.walkFrom(opFr, func(fr *Frame, in ssa.Instruction) {
+		if in == site.(ssa.Instruction) {
+			siteFrs = append(siteFrs, fr)
+		}
+	})
+	if len(siteFrs) == 0 {
+		siteFrs = []*Frame{tm.Root(site.Parent())}
+	}
+	inLoop := false
+	for _, sf := range siteFrs {
+		if loopInContext(sf, site, opFr) {
+			inLoop = true
+		}
+	}
+	r.Check(!inLoop, "HK-SITE", key+":not-in-loop", where,
 		"the hook is fired outside any loop (once per operation)", "the call site is inside a loop: the hook fires once per iteration")
 
 	announced := func(x *Explorer, in ssa.Instruction) bool {
@@ -529,49 +751,53 @@ func checkHookSite(w *World, r *Report, tm *Terms, m string, spec hookSpec, site
 		fmt.Sprintf("on every non-failing path of %s the hook fires exactly once, %s %s", fnName(fn), rel, ann), strings.Join(bad, "; "))
 
 	// arguments
-	fr := tm.Root(fn)
 	args := site.Common().Args // receiver k, ctx, then hook arguments
 	off := len(args) - len(spec.fields)
 	if off < 0 {
 		r.Fail("HK-SITE", key+":args", where, "hook arguments match the specification table", "fewer arguments than the table lists")
 		return
 	}
-	// the record(s) written to the announced collection in this function
+	// the record(s) written to the announced collection by this operation (in the operation or in what it calls)
 	var written []*Term
 	var keys []*Term
-	for _, b := range fn.Blocks {
-		for _, in := range b.Instrs {
-			e := w.EffectOf(in)
-			if e == nil || e.Kind != EffStoreWrite || e.Coll != spec.announced || e.Method != "Set" {
-				continue
-			}
-			ca := in.(ssa.CallInstruction).Common().Args
-			if len(ca) >= 4 {
-				keys = append(keys, tm.OperandAt(fr, in, ca[2]))
-				written = append(written, tm.OperandAt(fr, in, ca[3]))
-			}
+	tm.walkFrom(opFr, func(fr *Frame, in ssa.Instruction) {
+		e := w.EffectOf(in)
+		if e == nil || e.Kind != EffStoreWrite || e.Coll != spec.announced || e.Method != "Set" {
+			return
 		}
-	}
+		ca := in.(ssa.CallInstruction).Common().Args
+		if len(ca) >= 4 {
+			keys = append(keys, tm.OperandAt(fr, in, ca[2]))
+			written = append(written, tm.OperandAt(fr, in, ca[3]))
+		}
+	})
 	for i, f := range spec.fields {
-		at := tm.OperandAt(fr, site, args[off+i])
 		akey := fmt.Sprintf("%s:arg%d", key, i)
-		switch {
-		case f != "":
-			if len(written) == 0 {
-				r.Fail("HK-SITE", akey, where, "argument is a field of the written record", "no write of the announced collection in "+fnName(fn))
-				continue
-			}
-			ok, why := true, ""
-			for _, wv := range written {
-				exp := recordField(wv, f, spec.announced == "Auction")
-				if canonKey(exp) != canonKey(at) {
-					ok = false
-					why = fmt.Sprintf("the hook is told %s but the %s that is written has %s = %s", at.String(), spec.announced, f, exp.String())
+		ok, why := true, ""
+		for _, sf := range siteFrs {
+			at := tm.OperandAt(sf, site, args[off+i])
+			switch {
+			case f != "":
+				if len(written) == 0 {
+					ok, why = false, "no write of the announced collection in "+fnName(fn)
+					continue
+				}
+				for _, wv := range written {
+					exp := recordField(wv, f, spec.announced == "Auction")
+					if canonKey(exp) != canonKey(at) {
+						ok = false
+						why = fmt.Sprintf("the hook is told %s but the %s that is written has %s = %s", at.String(), spec.announced, f, exp.String())
+					}
+				}
+			default:
+				if o, y := specialHookArg(w, tm, fn, opFr, m, i, at, written, keys); !o {
+					ok, why = false, y
 				}
 			}
+		}
+		if f != "" {
 			r.Check(ok, "HK-SITE", akey, where, fmt.Sprintf("argument %d of %s is field %s of the %s record that is written", i, m, f, spec.announced), why)
-		default:
-			ok, why := specialHookArg(w, tm, fn, fr, m, i, at, written, keys)
+		} else {
 			r.Check(ok, "HK-SITE", akey, where, fmt.Sprintf("argument %d of %s carries the value the operation uses", i, m), why)
 		}
 	}
@@ -659,8 +885,8 @@ func specialHookArg(w *World, tm *Terms, fn *ssa.Function, fr *Frame, m string, 
 	case "BeforeSellingCoinsAllocated":
 		// collect: the auction whose selling escrow is debited, and the MatchingInfo whose AllocationMap drives the amounts
 		var escrowOf, allocOf []*Term
-		for _, b := range fn.Blocks {
-			for _, in := range b.Instrs {
+		tm.walkFrom(fr, func(fr *Frame, in ssa.Instruction) {
+			{
 				switch x := in.(type) {
 				case ssa.CallInstruction:
 					for _, a := range x.Common().Args {
@@ -686,7 +912,7 @@ func specialHookArg(w *World, tm *Terms, fn *ssa.Function, fr *Frame, m string, 
 					}
 				}
 			}
-		}
+		})
 		switch i {
 		case 0:
 			if !isField(at, "Id") {
